@@ -23,7 +23,11 @@ Depth == atoi(IOEnv.DEPTH)
 (*                               and lazy repetitions, for the greedy-dot rule of C19.                          *)
 Mode == IF "MODE" \in DOMAIN IOEnv THEN IOEnv.MODE ELSE "str"
 
+(*                     "mixed" - str-literal patterns of a utf8 = false lexer over {a, e', x}: x is the byte FF     *)
+(*                               written (?-u:\xff) inside the str pattern; a literal character is a character     *)
+(*                               or such a byte, each counts once.                                                *)
 Chars == CASE Mode = "str" -> {"a", "b", "e"}
+           [] Mode = "mixed" -> {"a", "e", "x"}
            [] Mode = "bytes" -> {"a", "e", "h", "f"}
            [] Mode = "dot" -> {"a", "b", "o"}
 ByteLenC(c) == IF c \in {"e", "h"} THEN 2 ELSE 1
@@ -46,6 +50,8 @@ Inf == 99
 
 Atoms == CASE Mode = "str" -> {Lit(<<"a">>), Lit(<<"a", "b">>), Lit(<<"e">>), Lit(<<"e", "a">>),
                                Cls(<<"a", "b">>), Cls(<<"a", "e">>), Cls(<<"a", "b", "e">>), Look, Empty}
+           [] Mode = "mixed" -> {Lit(<<"a">>), Lit(<<"e">>), Lit(<<"x">>), Lit(<<"e", "x">>), Lit(<<"x", "e">>), Lit(<<"a", "x">>),
+                                 Lit(<<"x", "a">>), Lit(<<"e", "a">>), Cls(<<"a", "e">>), Look, Empty}
            [] Mode = "bytes" -> {Lit(<<"a">>), Lit(<<"e">>), Lit(<<"h">>), Lit(<<"f">>), Lit(<<"h", "a">>), Lit(<<"e", "f">>),
                                  Lit(<<"a", "h">>), Cls(<<"a", "f">>), Look, Empty}
            [] Mode = "dot" -> {Lit(<<"a">>), Cls(<<"a", "b">>), Dot("nl"), Dot("s"), Dot("cls"), Empty}
